@@ -47,6 +47,8 @@ def run_all(chk, fsets, tier):
             import rules_bits
             chk.rule("P2.clean", floor=8 if i == 0 else 0, doc="bit-range domain: the reader's buffer is clean after copy_to (bits outside the valid window are zero, because a later refill ORs new words in)")
             rules_bits.run_reader_cleanliness(chk, F, fs, "P2.clean", groups=("copy",))
+            chk.rule("P2.layout", floor=10 if i == 0 else 0, doc="bit-range domain: every OR that builds the writer's buffer or a delivered word in copy_from combines disjoint ranges (the undefined part of the buffer is shifted out, never rotated in)")
+            rules_bits.run_writer_layout(chk, F, fs, "P2.layout", names=("copy_from",), groups=("copy",))
         # P4: which impls override the provided methods under this feature set
         ov = set()
         for b in F.bodies:
